@@ -607,7 +607,14 @@ func (x *Exec) callContract(fr *Frame, st *State, fc *FuncContract, callee *ssa.
 	u.havocAlloc = na
 	// havoc the frame
 	x.curCallFrame, x.curCallArgs = fr, args
-	if err := x.havocModifies(env, st, fc); err != nil {
+	siteTag := x.curTag
+	var sitePreserves []string
+	if x.topFC != nil && x.topFC.CallPreserves != nil {
+		if sitePreserves = x.topFC.CallPreserves[x.curTag]; len(sitePreserves) > 0 {
+			u.Trust(fmt.Sprintf("%s: at %s the callee is assumed to keep %s (call-site frame stated by the caller's contract; justified by the contracts of the functions handed to the callee)", x.topName, x.curTag, strings.Join(sitePreserves, ", ")))
+		}
+	}
+	if err := x.havocModifies(env, st, fc, sitePreserves...); err != nil {
 		return Val{}, engineErr("call %s: %v", fc.Key, err)
 	}
 	if st.Epoch != pre.Epoch {
@@ -664,6 +671,19 @@ func (x *Exec) callContract(fr *Frame, st *State, fc *FuncContract, callee *ssa.
 			return Val{}, engineErr("call %s ensures %q: %v", fc.Key, c.Text, err)
 		}
 		u.Assume(Implies(st.PC, g))
+	}
+	if x.topFC != nil && x.topFC.CallAssume != nil {
+		for _, c := range x.topFC.CallAssume[siteTag] {
+			// the caller's contract states a fact about the state after this call (glue for what the callee does with
+			// the functions handed to it); it is assumed, and listed
+			aenv := x.envFor(fr, st, pre)
+			g, err := aenv.Bool(c.E)
+			if err != nil {
+				return Val{}, engineErr("%s: call %s assume %q: %v", x.topName, siteTag, c.Text, err)
+			}
+			u.Trust(fmt.Sprintf("%s: assumed after %s: %s", x.topName, siteTag, c.Text))
+			u.Assume(Implies(st.PC, g))
+		}
 	}
 	// result references: either pre-existing or allocated by the callee (<= new alloc)
 	u.assumeValExisting(st, res)
